@@ -15,6 +15,9 @@ VARIANTS = [
     V("scalar-not-broadcast", O, "        values = [values] * len(geometries)", "        values = [values]", "R20.3"),
     V("coords-crossed", O, "            xdim: array.coords[xdim],\n            ydim: array.coords[ydim],", "            xdim: array.coords[ydim],\n            ydim: array.coords[xdim],", "R20.2"),
     V("xy-unpack-swapped", O, "                for x, y in coords", "                for y, x in coords", "R20.4"),
+    V("y-lookup-uses-x-size", O, "                    get_coord_index(array, ydim, y, raise_error=False),",
+      "                    min(get_coord_index(array, ydim, y, raise_error=False), array.sizes[xdim]),", "R20.6",
+      why="the y bin is clamped with the x axis' size: wrong on non-square templates"),
     # neutral
     V("N-len-of-coords", O, "        (array.sizes[ydim], array.sizes[xdim]),\n", "        (len(array[ydim]), len(array[xdim])),\n", None),
     V("N-keyword-out-shape", O, "        (array.sizes[ydim], array.sizes[xdim]),\n", "        out_shape=(array.sizes[ydim], array.sizes[xdim]),\n", None),
